@@ -516,47 +516,6 @@ Definition ok_inv (o : outcome (prov * res)) : Prop := exists s' r, o = Ok (s', 
 Lemma ok_same s r : Inv s -> ok_inv (Ok (s, r)).
 Proof. intros I. exists s, r. auto. Qed.
 
-Lemma inv_lookup s r id cache q qr p fresh :
-  Inv s -> ok_inv (get_lookup s r id cache q qr p fresh).
-Proof.
-  intros (lb & lf & HI). unfold get_lookup.
-  destruct (act_get (p_act s) r) eqn:Ea; try (apply ok_same; exists lb, lf; exact HI).
-  assert (Miss : forall id', ok_inv (Ok (set_actor s r (AMiss id' q qr p cache), RMiss))).
-  { intros id'. eexists _, _. split; [reflexivity|]. exists lb, lf. apply InvL_nonhold; [rewrite Ea; exact I|exact I|exact HI]. }
-  destruct (N.eqb id 0) eqn:E0; [apply Miss|].
-  destruct (map_get (p_curs s) id) as [e|] eqn:Em; [|apply Miss].
-  destruct (h_busy (p_vals s e)) eqn:Eb; [apply ok_same; exists lb, lf; exact HI|].
-  destruct HI as (R & M & A & C & Q & T).
-  pose proof M as (M1 & M2 & M3).
-  destruct (M1 id e Em) as (Ie & c & Hc & Hid). rewrite Hc.
-  destruct (apply_state (p_cur s c) id q p) as [cu|] eqn:Eap; [|apply Miss].
-  destruct (apply_state_sim _ _ _ _ _ Eap) as (S1 & S2 & S3 & S4 & S5).
-  pose proof (cur_sim_fupd (p_cur s) c cu S1 S2 S3 S4 S5) as CS.
-  eexists _, _. split; [reflexivity|]. exists (e :: remove Nat.eq_dec e lb), lf.
-  unfold InvL; sproj.
-  destruct (rs_touch_spec _ _ _ _ R Ie) as [R' _].
-  pose proof (mem_eq_touch e lb Ie) as ME.
-  assert (Len : length (e :: remove Nat.eq_dec e lb) = length lb).
-  { cbn [length]. destruct R as (R1 & _). rewrite (remove_length_nodup e lb (ring_nodup _ _ _ R1) Ie). reflexivity. }
-  set (v := {| h_busy := true; h_cur := h_cur (p_vals s e); h_exp := (p_now s + p_busyto s)%Z |}).
-  assert (V : vals_cur_eq (p_vals s) (fupd (p_vals s) e v)) by (apply vals_cur_eq_fupd; reflexivity).
-  split; [exact R'|]. split; [apply (IM_ext (p_curs s) (p_vals s) _ (p_cur s) _ (p_ncur s) lb); assumption|].
-  split.
-  - apply (IA_ext _ (fupd (p_vals s) e v) _ (p_cur s) _ _ lb); [intros x; auto|exact CS|exact ME|].
-    apply (IA_grab (p_act s) (p_curs s) (p_vals s) (p_cur s) (p_ncur s) lb r e c v A M).
-    + rewrite Ea; exact I.
-    + exact Ie.
-    + exact Hc.
-    + exact Eb.
-    + exact Hc.
-    + reflexivity.
-  - split; [|split].
-    + apply (IC_ext (p_cur s) _ _ _ (p_vals s) _ lb); [exact V|exact CS|exact ME|].
-      apply IC_nonhold; [rewrite Ea; exact I|exact C].
-    + apply (IQ_ext _ (p_cur s)); assumption.
-    + apply (IT_ext _ _ _ _ lb); [exact ME|]. apply IT_fupd; [exact T|]. cbn. lia.
-Qed.
-
 (* ================= GetOrCreate: newCursor ================= *)
 Lemma live_sum_agree cur cur' n p : (forall x, x < n -> cur' x = cur x) -> live_sum cur' n p = live_sum cur n p.
 Proof.
@@ -1204,6 +1163,96 @@ Proof.
 Qed.
 
 (* ================= every step of every actor preserves the invariant ================= *)
+Definition time_remove (s : prov) (e c : nat) : prov :=
+  let s1 := if h_busy (p_vals s e) then s else close_cur s c in
+  let s2 := set_rs s1 (rs_remove (p_rs s1) e) in
+  let s3 := set_curs s2 (map_del (p_curs s2) (c_id (p_cur s2 c))) in
+  let s4 := clear_cur s3 e in
+  set_rs s4 (rs_push_free (p_rs s4) e).
+
+Lemma close_cur_fields s c :
+  p_act (close_cur s c) = p_act s /\ p_now (close_cur s c) = p_now s /\ p_vals (close_cur s c) = p_vals s /\
+  p_curs (close_cur s c) = p_curs s /\ p_ncur (close_cur s c) = p_ncur s /\ c_id (p_cur (close_cur s c) c) = c_id (p_cur s c).
+Proof. unfold close_cur. destruct (c_live (p_cur s c)); sproj; rewrite fupd_same; repeat split. Qed.
+
+Lemma time_remove_fields s e c :
+  p_act (time_remove s e c) = p_act s /\ p_now (time_remove s e c) = p_now s /\ p_ncur (time_remove s e c) = p_ncur s /\
+  p_vals (time_remove s e c) = fupd (p_vals s) e (cleared (p_vals s e)) /\
+  p_curs (time_remove s e c) = map_del (p_curs s) (c_id (p_cur s c)).
+Proof.
+  unfold time_remove. destruct (h_busy (p_vals s e)) eqn:Hb.
+  - sproj. unfold cleared. repeat split.
+  - destruct (close_cur_fields s c) as (F1 & F2 & F3 & F4 & F5 & F6). sproj. rewrite F1, F2, F3, F4, F5, F6. unfold cleared. repeat split.
+Qed.
+
+Lemma time_remove_inv s lb lf e c : InvL s lb lf -> In e lb -> h_cur (p_vals s e) = Some c ->
+  exists lf', InvL (time_remove s e c) (remove Nat.eq_dec e lb) lf'.
+Proof.
+  intros HI Ie Hcur. pose proof HI as (R & _).
+  destruct (rs_remove_spec _ _ _ _ R Ie) as (R' & Sl & Ne' & _).
+  assert (Nb' : ~ In e (remove Nat.eq_dec e lb)) by apply remove_In.
+  assert (Nf : ~ In e lf) by (destruct R as (_ & _ & D & _); apply D; exact Ie).
+  assert (Lt : e < r_nelem (rs_remove (p_rs s) e)) by (rewrite Ne'; destruct R as (_ & _ & _ & B); apply B; left; exact Ie).
+  destruct (rs_push_free_spec _ _ _ _ R' Sl Nb' Nf Lt) as (lf' & R'' & _).
+  exists lf'. pose proof (remove_step s lb lf e c _ lf' HI Ie Hcur R'') as St.
+  assert (Prs : p_rs (if h_busy (p_vals s e) then s else close_cur s c) = p_rs s) by apply busy_or_close_rs.
+  unfold time_remove. unfold InvL in St |- *. revert St. sproj. rewrite Prs. sproj. exact (fun x => x).
+Qed.
+
+Lemma drop_idle_eq s e c id : h_busy (p_vals s e) = false -> c_id (p_cur s c) = id -> drop_idle s e c id = time_remove s e c.
+Proof.
+  intros Hb Hid. unfold drop_idle, time_remove. rewrite Hb.
+  destruct (close_cur_fields s c) as (_ & _ & _ & _ & _ & F6). sproj. rewrite F6, Hid. reflexivity.
+Qed.
+
+Lemma inv_lookup drop s r id cache q qr p fresh :
+  Inv s -> ok_inv (get_lookup drop s r id cache q qr p fresh).
+Proof.
+  intros (lb & lf & HI). unfold get_lookup.
+  destruct (act_get (p_act s) r) eqn:Ea; try (apply ok_same; exists lb, lf; exact HI).
+  assert (Miss : forall id', ok_inv (Ok (set_actor s r (AMiss id' q qr p cache), RMiss))).
+  { intros id'. eexists _, _. split; [reflexivity|]. exists lb, lf. apply InvL_nonhold; [rewrite Ea; exact I|exact I|exact HI]. }
+  destruct (N.eqb id 0) eqn:E0; [apply Miss|].
+  destruct (map_get (p_curs s) id) as [e|] eqn:Em; [|apply Miss].
+  destruct (h_busy (p_vals s e)) eqn:Eb; [apply ok_same; exists lb, lf; exact HI|].
+  destruct HI as (R & M & A & C & Q & T).
+  pose proof M as (M1 & M2 & M3).
+  destruct (M1 id e Em) as (Ie & c & Hc & Hid). rewrite Hc.
+  destruct (drop && N.eqb (c_query (p_cur s c)) q && negb (pos_eqb (c_spos (p_cur s c)) p)).
+  { (* the cached cursor stands elsewhere: it goes the way an expired idle cursor goes, the request misses *)
+    rewrite (drop_idle_eq s e c id Eb Hid).
+    destruct (time_remove_inv s lb lf e c (conj R (conj M (conj A (conj C (conj Q T))))) Ie Hc) as (lf' & HI').
+    destruct (time_remove_fields s e c) as (F1 & _).
+    eexists _, _. split; [reflexivity|]. exists (remove Nat.eq_dec e lb), lf'.
+    apply InvL_nonhold; [rewrite F1, Ea; exact I|exact I|exact HI']. }
+  destruct (apply_state (p_cur s c) id q p) as [cu|] eqn:Eap; [|apply Miss].
+  destruct (apply_state_sim _ _ _ _ _ Eap) as (S1 & S2 & S3 & S4 & S5).
+  pose proof (cur_sim_fupd (p_cur s) c cu S1 S2 S3 S4 S5) as CS.
+  eexists _, _. split; [reflexivity|]. exists (e :: remove Nat.eq_dec e lb), lf.
+  unfold InvL; sproj.
+  destruct (rs_touch_spec _ _ _ _ R Ie) as [R' _].
+  pose proof (mem_eq_touch e lb Ie) as ME.
+  assert (Len : length (e :: remove Nat.eq_dec e lb) = length lb).
+  { cbn [length]. destruct R as (R1 & _). rewrite (remove_length_nodup e lb (ring_nodup _ _ _ R1) Ie). reflexivity. }
+  set (v := {| h_busy := true; h_cur := h_cur (p_vals s e); h_exp := (p_now s + p_busyto s)%Z |}).
+  assert (V : vals_cur_eq (p_vals s) (fupd (p_vals s) e v)) by (apply vals_cur_eq_fupd; reflexivity).
+  split; [exact R'|]. split; [apply (IM_ext (p_curs s) (p_vals s) _ (p_cur s) _ (p_ncur s) lb); assumption|].
+  split.
+  - apply (IA_ext _ (fupd (p_vals s) e v) _ (p_cur s) _ _ lb); [intros x; auto|exact CS|exact ME|].
+    apply (IA_grab (p_act s) (p_curs s) (p_vals s) (p_cur s) (p_ncur s) lb r e c v A M).
+    + rewrite Ea; exact I.
+    + exact Ie.
+    + exact Hc.
+    + exact Eb.
+    + exact Hc.
+    + reflexivity.
+  - split; [|split].
+    + apply (IC_ext (p_cur s) _ _ _ (p_vals s) _ lb); [exact V|exact CS|exact ME|].
+      apply IC_nonhold; [rewrite Ea; exact I|exact C].
+    + apply (IQ_ext _ (p_cur s)); assumption.
+    + apply (IT_ext _ _ _ _ lb); [exact ME|]. apply IT_fupd; [exact T|]. cbn. lia.
+Qed.
+
 Lemma lift_ok o : ok_inv1 o -> ok_inv (lift o).
 Proof. intros (s' & -> & H). exists s', RDone. auto. Qed.
 
@@ -1212,7 +1261,7 @@ Definition tick_ok (o : op) : Prop := mono = true -> match o with OTick d => (0 
 
 Lemma inv_step s o : Inv s -> tick_ok o -> ok_inv (step code_variant s o).
 Proof.
-  intros HI G. destruct o; cbn [step code_variant v_owner v_evict].
+  intros HI G. destruct o; cbn [step code_variant v_owner v_evict v_droppos].
   - apply inv_lookup; assumption.
   - apply inv_create; assumption.
   - apply inv_insert; assumption.
@@ -1310,15 +1359,15 @@ Lemma inv_acq s : Inv s -> forall p, p_acq s p = live_sum (p_cur s) (p_ncur s) p
 Proof. intros (lb & lf & _ & _ & _ & _ & Q & _). exact Q. Qed.
 
 (* ---- unconditional facts (every state, no discipline) ---- *)
-Lemma refuse_busy s r id cache q qr p fresh e :
+Lemma refuse_busy drop s r id cache q qr p fresh e :
   act_get (p_act s) r = AIdle -> id <> 0%N -> map_get (p_curs s) id = Some e -> h_busy (p_vals s e) = true ->
-  get_lookup s r id cache q qr p fresh = Ok (s, RRefused).
+  get_lookup drop s r id cache q qr p fresh = Ok (s, RRefused).
 Proof.
   intros Ea Hid Hm Hb. unfold get_lookup. rewrite Ea. apply N.eqb_neq in Hid. rewrite Hid, Hm, Hb. reflexivity.
 Qed.
 
-Lemma hit_only_idle s r id cache q qr p fresh s' c :
-  get_lookup s r id cache q qr p fresh = Ok (s', RHit c) ->
+Lemma hit_only_idle drop s r id cache q qr p fresh s' c :
+  get_lookup drop s r id cache q qr p fresh = Ok (s', RHit c) ->
   exists e, map_get (p_curs s) id = Some e /\ h_busy (p_vals s e) = false /\ h_cur (p_vals s e) = Some c.
 Proof.
   unfold get_lookup. destruct (act_get (p_act s) r); try (intros H; discriminate H).
@@ -1326,12 +1375,13 @@ Proof.
   destruct (map_get (p_curs s) id) as [e|]; [|intros H; discriminate H].
   destruct (h_busy (p_vals s e)) eqn:Eb; [intros H; discriminate H|].
   destruct (h_cur (p_vals s e)) as [c0|] eqn:Ec; [|intros H; discriminate H].
+  destruct (drop && N.eqb (c_query (p_cur s c0)) q && negb (pos_eqb (c_spos (p_cur s c0)) p)); [intros H; discriminate H|].
   destruct (apply_state (p_cur s c0) id q p); intros H; [|discriminate H]. injection H as _ Hc. subst c0. exists e. auto.
 Qed.
 
-Lemma resume_lookup s r id cache q qr p fresh :
+Lemma resume_lookup drop s r id cache q qr p fresh :
   act_get (p_act s) r = AIdle -> id <> 0%N -> map_get (p_curs s) id = None ->
-  get_lookup s r id cache q qr p fresh = Ok (set_actor s r (AMiss id q qr p cache), RMiss).
+  get_lookup drop s r id cache q qr p fresh = Ok (set_actor s r (AMiss id q qr p cache), RMiss).
 Proof.
   intros Ea Hid Hm. unfold get_lookup. rewrite Ea. apply N.eqb_neq in Hid. rewrite Hid, Hm. reflexivity.
 Qed.
@@ -1351,13 +1401,6 @@ Proof.
 Qed.
 
 (* ================= nothing stays pinned: at quiescence one sweep after the time-outs empties the cache ================= *)
-Definition time_remove (s : prov) (e c : nat) : prov :=
-  let s1 := if h_busy (p_vals s e) then s else close_cur s c in
-  let s2 := set_rs s1 (rs_remove (p_rs s1) e) in
-  let s3 := set_curs s2 (map_del (p_curs s2) (c_id (p_cur s2 c))) in
-  let s4 := clear_cur s3 e in
-  set_rs s4 (rs_push_free (p_rs s4) e).
-
 Lemma sweep_time_loop_S cnt e0 s :
   sweep_time_loop (S cnt) e0 s =
   let e := cl_prev_of (r_links (p_rs s)) e0 in
@@ -1369,35 +1412,6 @@ Lemma sweep_time_loop_S cnt e0 s :
     end
   else if negb (h_busy ch) then Ok s else sweep_time_loop cnt e s.
 Proof. reflexivity. Qed.
-
-Lemma close_cur_fields s c :
-  p_act (close_cur s c) = p_act s /\ p_now (close_cur s c) = p_now s /\ p_vals (close_cur s c) = p_vals s /\
-  p_curs (close_cur s c) = p_curs s /\ p_ncur (close_cur s c) = p_ncur s /\ c_id (p_cur (close_cur s c) c) = c_id (p_cur s c).
-Proof. unfold close_cur. destruct (c_live (p_cur s c)); sproj; rewrite fupd_same; repeat split. Qed.
-
-Lemma time_remove_fields s e c :
-  p_act (time_remove s e c) = p_act s /\ p_now (time_remove s e c) = p_now s /\ p_ncur (time_remove s e c) = p_ncur s /\
-  p_vals (time_remove s e c) = fupd (p_vals s) e (cleared (p_vals s e)) /\
-  p_curs (time_remove s e c) = map_del (p_curs s) (c_id (p_cur s c)).
-Proof.
-  unfold time_remove. destruct (h_busy (p_vals s e)) eqn:Hb.
-  - sproj. unfold cleared. repeat split.
-  - destruct (close_cur_fields s c) as (F1 & F2 & F3 & F4 & F5 & F6). sproj. rewrite F1, F2, F3, F4, F5, F6. unfold cleared. repeat split.
-Qed.
-
-Lemma time_remove_inv s lb lf e c : InvL s lb lf -> In e lb -> h_cur (p_vals s e) = Some c ->
-  exists lf', InvL (time_remove s e c) (remove Nat.eq_dec e lb) lf'.
-Proof.
-  intros HI Ie Hcur. pose proof HI as (R & _).
-  destruct (rs_remove_spec _ _ _ _ R Ie) as (R' & Sl & Ne' & _).
-  assert (Nb' : ~ In e (remove Nat.eq_dec e lb)) by apply remove_In.
-  assert (Nf : ~ In e lf) by (destruct R as (_ & _ & D & _); apply D; exact Ie).
-  assert (Lt : e < r_nelem (rs_remove (p_rs s) e)) by (rewrite Ne'; destruct R as (_ & _ & _ & B); apply B; left; exact Ie).
-  destruct (rs_push_free_spec _ _ _ _ R' Sl Nb' Nf Lt) as (lf' & R'' & _).
-  exists lf'. pose proof (remove_step s lb lf e c _ lf' HI Ie Hcur R'') as St.
-  assert (Prs : p_rs (if h_busy (p_vals s e) then s else close_cur s c) = p_rs s) by apply busy_or_close_rs.
-  unfold time_remove. unfold InvL in St |- *. revert St. sproj. rewrite Prs. sproj. exact (fun x => x).
-Qed.
 
 Lemma drain_loop cnt : forall e0 s lb lf, InvL s lb lf -> p_act s = [] ->
   (forall e, In e lb -> (h_exp (p_vals s e) < p_now s)%Z) ->
@@ -1525,6 +1539,8 @@ Proof.
     destruct (map_get (p_curs s) id) as [e|]; [|intros H; injection H as <- _; exact J].
     destruct (h_busy (p_vals s e)); [intros H; injection H as <- _; exact J|].
     destruct (h_cur (p_vals s e)) as [c|]; [|discriminate].
+    destruct (v_droppos v && N.eqb (c_query (p_cur s c)) q && negb (pos_eqb (c_spos (p_cur s c)) p));
+      [intros H; injection H as <- _; unfold drop_idle; sproj; apply Jc_close; exact J|].
     destruct (apply_state (p_cur s c) id q p) as [cu|] eqn:Ea; [|intros H; injection H as <- _; exact J].
     intros H; injection H as <- _. sproj. apply Jc_fupd; [exact J|].
     destruct (apply_state_sim _ _ _ _ _ Ea) as (_ & S2 & _ & _ & S5). rewrite S2, S5. apply J.
